@@ -170,10 +170,14 @@ def showLaw : ILaw Float → String
   | .spline e pts x => s!"spl {showB e} {x} " ++
       " ".intercalate (pts.map fun p => showF p.1 ++ ":" ++ showF p.2.1 ++ ":" ++ showF p.2.2)
 
+/-- keys of one slot in increasing order (the order of the tests is irrelevant inside a slot) -/
+def sortKeys (ks : List String) : List String :=
+  ks.foldl (fun acc k => (acc.filter (· < k)) ++ [k] ++ (acc.filter (fun x => ¬ (x < k) ∧ x ≠ k))) []
+
 def showIR (ir : IR Float) : String :=
   s!"nargs={ir.nargs};binds=" ++ ",".intercalate (ir.binds.map fun b => b.1 ++ ":" ++ showSrc b.2) ++
   ";slots=" ++ ",".intercalate (ir.slots.map showF) ++
-  ";keys=" ++ ",".intercalate (ir.keys.map fun ks => "|".intercalate ks) ++
+  ";keys=" ++ ",".intercalate (ir.keys.map fun ks => "|".intercalate (sortKeys ks)) ++
   s!";out={ir.out};law=" ++ showLaw ir.law ++ s!";ret={ir.ret}"
 
 def showO : Option Float → String
